@@ -11,6 +11,14 @@
                                                     entry valid with a wrong value, ip elsewhere -> ok
     run v0 v1 …                                     src_interpreter::run(example) on the current object
         -> <model interpreter> <denote | skip> ok=<0|1>
+    rep n v0 v1 …                                   the same example n times in a row on the current object
+        -> <model interpreter, last run> <denote | skip> ok=<0|1> same=<1 iff all n answers are equal>
+    an example may be written sparsely:  @<size> <default> <index>:<value> …
+
+  After every run the driver re-tabulates the memo of the state over the rows×cats loci of the genome
+  (a representation change only: the model's memo is a function and would otherwise grow a closure per
+  run; entries inside the matrix are preserved exactly, and under `WF` the interpreter never reads any
+  other – theorem `in_bounds`).
   anything else -> bad-op
 -/
 import Vita.C01.Model
@@ -113,6 +121,31 @@ def loadProg (ts : List String) : Option DState :=
     | _, _, _, _, _ => none
   | _ => none
 
+/-- the example of a `run` / `rep` line (dense, or sparse `@n default i:v …`) -/
+def decodeExample (vs : List String) : Option (List (Val Float)) :=
+  match vs with
+  | hd :: dflt :: rest =>
+    match hd.toList with
+    | '@' :: n =>
+      match (String.ofList n).toNat?, decodeVal? dflt with
+      | some n, some d =>
+        rest.foldlM (fun (acc : Array (Val Float)) (t : String) =>
+          match t.splitOn ":" with
+          | [i, v] =>
+            match i.toNat?, decodeVal? v with
+            | some i, some v => if i < acc.size then some (acc.set! i v) else none
+            | _, _ => none
+          | _ => none) (Array.replicate n d) |>.map Array.toList
+      | _, _ => none
+    | _ => vs.mapM decodeVal?
+  | _ => vs.mapM decodeVal?
+
+/-- same state, memo stored as a table over the loci of the genome -/
+def tabulate (g : Genome Float) (s : St Float) : St Float :=
+  let tbl : Array (Array (Bool × Val Float)) :=
+    (Array.range g.rows).map fun i => (Array.range g.cats).map fun c => s.memo ⟨i, c⟩
+  { s with memo := fun l => (tbl.getD l.index #[]).getD l.cat (false, .void) }
+
 def staleOf (g : Genome Float) : St Float :=
   ⟨fun l => (true, .int (1000 + l.index)), ⟨g.rows - 1, 0⟩, true⟩
 
@@ -127,12 +160,25 @@ def step (d : DState) (line : String) : DState × String :=
   | ["new"] => ({ d with st := St.init d.g }, "ok")
   | ["stale"] => ({ d with st := staleOf d.g }, "ok")
   | "run" :: vs =>
-    match vs.mapM decodeVal? with
+    match decodeExample vs with
     | some ex =>
       let r := run d.g ex d.st
       let den := if d.size < cap then encodeOut (denote d.g ex d.g.best) else "skip"
-      ({ d with st := r.2 }, s!"{encodeOut r.1} {den} ok={if r.2.ok then 1 else 0}")
+      ({ d with st := tabulate d.g r.2 }, s!"{encodeOut r.1} {den} ok={if r.2.ok then 1 else 0}")
     | none => (d, "bad-op")
+  | "rep" :: n :: vs =>
+    match n.toNat?, decodeExample vs with
+    | some n, some ex =>
+      if n == 0 then (d, "bad-op") else
+      let den := if d.size < cap then encodeOut (denote d.g ex d.g.best) else "skip"
+      let (st, last, same) := (List.range n).foldl
+        (fun (acc : St Float × String × Bool) _ =>
+          let r := run d.g ex acc.1
+          let o := encodeOut r.1
+          (tabulate d.g r.2, o, acc.2.2 && (acc.2.1 == "" || acc.2.1 == o)))
+        (d.st, "", true)
+      ({ d with st := st }, s!"{last} {den} ok={if st.ok then 1 else 0} same={if same then 1 else 0}")
+    | _, _ => (d, "bad-op")
   | _ => (d, "bad-op")
 
 partial def loop (h : IO.FS.Stream) (out : IO.FS.Stream) (d : DState) : IO Unit := do
